@@ -222,6 +222,7 @@ def random_script(rng, U=2, nprocs=None, maxlen=30, hostile=0.15, shutdown=0.25,
     t = rng.choice([100, 107, 200, 1000])
     ops = []
     req = 0
+    poller = rng.choice(['poll', 'poll', 'select'])      # the real PollPoller / SelectPoller over the simulated kernel
     length = rng.randrange(3, maxlen)
     sent_shutdown = False
     for _ in range(length):
@@ -282,8 +283,13 @@ def random_script(rng, U=2, nprocs=None, maxlen=30, hostile=0.15, shutdown=0.25,
             kq = [rng.choice([0, 1, 1, 2, 3]) for _ in range(rng.randrange(1, 3))]
         elif rng.random() < 0.3:
             kq = [1] * 4     # children ignoring the stop signal
-        ops.append({'now': t, 'acts': acts, 'forkq': fq, 'killq': kq})
-    return {'U': U, 'procs': confs, 'groups': groups, 'ops': ops}
+        op = {'now': t, 'acts': acts, 'forkq': fq, 'killq': kq}
+        if rng.random() < hostile / 2:
+            # the poll()/select() call of this pass is interrupted (EINTR; for select also EBADF): no I/O on this
+            # pass, nothing else changes - the lifecycle model does not see it
+            op['faults'] = {'poll': [4 if poller == 'poll' else rng.choice([4, 9])]}
+        ops.append(op)
+    return {'U': U, 'procs': confs, 'groups': groups, 'ops': ops, 'poller': poller}
 
 
 def canonical(result):
